@@ -113,7 +113,12 @@ func calculateExecutionType(
 
 	switch methodT.GetType() {
 	case base.BLOCK:
-		return methodT.GetVal().(*base.T)
+		// an empty block ({ }) carries no result
+		if blockResultT, ok := methodT.GetVal().(*base.T); ok && blockResultT != nil {
+			return blockResultT
+		}
+
+		return base.MakeNil()
 
 	case base.UNION:
 		var newVariants []base.T
